@@ -423,6 +423,9 @@ func (rt *runtime) convertCallParameter(v Value, t reflect.Type) (reflect.Value,
 		if o := v.object(); o != nil {
 			if lv := o.get(propertyLength); lv.IsNumber() {
 				l := lv.number().int64
+				if l < 0 || l > math.MaxUint32 {
+					return reflect.Zero(t), fmt.Errorf("can't convert to %s: invalid length %d", t, l)
+				}
 
 				s := reflect.MakeSlice(t, int(l), int(l))
 
